@@ -60,3 +60,24 @@ From Fit Require Import Proofs.RawTotal.
 Theorem C03_raw_total : forall bs, let '(_, _, e) := raw_decode bs in e <> Some 97 /\ e <> Some 98.
 Proof. exact raw_decode_total. Qed.
 Print Assumptions C03_raw_total.
+
+(* the typed-file listener (filedef.Listener: decoder goroutine and worker goroutine over the channels poolc / mesgc / done,
+   capacities read from listener.go on every run) never blocks the decoder forever and never livelocks, for EVERY
+   channel-buffer option (0 included), every message list and every scheduling: every execution is finite, and a maximal one
+   (nothing enabled any more) has reached the final state with every message handed over in order *)
+Close Scope N_scope.
+From Coq Require Import Arith.
+From Fit Require Import Model.Listener gen.ListenerSpec Proofs.ListenerProofs Inst.ListenerInst.
+Theorem C03_listener_never_deadlocks : forall (M : Type) (buf : nat) (ms : list M) s,
+  maximal (pool_size lspec buf) (queue_size lspec buf) (close_count lspec buf) (Listener.init (pool_size lspec buf) ms) s ->
+  final s /\ processed s = ms.
+Proof.
+  intros M buf ms s Hm. destruct (maximal_final _ _ _ ms s (pool_always_positive buf) Hm) as [Hf [Hp _]]. split; assumption.
+Qed.
+Print Assumptions C03_listener_never_deadlocks.
+Theorem C03_listener_terminates : forall (M : Type) (P B K : nat), well_founded (fun s' s : @st M => In s' (steps P B K s)).
+Proof. intros M P B K. exact (steps_wf P B K). Qed.
+Print Assumptions C03_listener_terminates.
+Theorem C03_listener_structure : wf_lspec lspec = true.
+Proof. exact lspec_wf. Qed.
+Print Assumptions C03_listener_structure.
